@@ -139,15 +139,34 @@ class Held:
     def held_before(self, bb, i):
         return self.classes(self.before.get((bb, i), frozenset()))
 
+    def holds_before(self, bb, i, cls=None):
+        """Acquisition sites of the guards possibly live before statement i of bb (i == len(stmts): before the terminator).
+        Two program points are under one hold of a lock only if they share a site: a guard local that is released and
+        assigned again (`drop(g); g = m.lock()`) is a different hold."""
+        return frozenset(s for (l, s) in self.gbefore.get((bb, i), frozenset()) if cls is None or self.guards[l] == cls)
+
+    def holds_at_term(self, bb, cls=None):
+        return frozenset(s for (l, s) in self.gterm.get(bb, frozenset()) if cls is None or self.guards[l] == cls)
+
     def _run(self):
         fn = self.fn
         g = self.guards
+        self.gbefore = {}
+        self.gterm = {}
         if not g:
             return
-        init = frozenset(l for l in g if 1 <= l <= fn.arg_count)
+        init = frozenset((l, ('arg', l)) for l in g if 1 <= l <= fn.arg_count)
         inn = {0: init}
         work = [0]
         seen_in = {}
+
+        def loc(st):
+            return frozenset(l for (l, _) in st)
+
+        def discard(cur, l):
+            for x in [x for x in cur if x[0] == l]:
+                cur.discard(x)
+
         while work:
             bb = work.pop()
             st = inn[bb]
@@ -157,17 +176,23 @@ class Held:
             cur = set(st)
             b = fn.blocks[bb]
             for i, s in enumerate(b['stmts']):
-                self.before[(bb, i)] = frozenset(cur) | self.before.get((bb, i), frozenset())
+                self.before[(bb, i)] = loc(cur) | self.before.get((bb, i), frozenset())
+                self.gbefore[(bb, i)] = frozenset(cur) | self.gbefore.get((bb, i), frozenset())
                 if s['k'] == 'assign':
+                    inherited = set()
                     for o in _operands_of_rvalue(s['rv']):
                         for l in _moved_locals_in_operand(o):
-                            cur.discard(l)
+                            inherited |= set(x[1] for x in cur if x[0] == l)
+                            discard(cur, l)
                     pl = s['pl']
                     if not pl['p'] and pl['l'] in g:
-                        cur.add(pl['l'])
+                        discard(cur, pl['l'])
+                        for site in (inherited or {('a', bb, i)}):
+                            cur.add((pl['l'], site))
             t = b['term']
             n = len(b['stmts'])
-            self.before[(bb, n)] = frozenset(cur) | self.before.get((bb, n), frozenset())
+            self.before[(bb, n)] = loc(cur) | self.before.get((bb, n), frozenset())
+            self.gbefore[(bb, n)] = frozenset(cur) | self.gbefore.get((bb, n), frozenset())
             out_normal = set(cur)
             out_unwind = set(cur)
             if t:
@@ -175,26 +200,28 @@ class Held:
                 if k == 'call':
                     for a in t['args']:
                         for l in _moved_locals_in_operand(a):
-                            cur.discard(l)
-                    self.at_term[bb] = frozenset(cur) | self.at_term.get(bb, frozenset())
+                            discard(cur, l)
+                    self.at_term[bb] = loc(cur) | self.at_term.get(bb, frozenset())
+                    self.gterm[bb] = frozenset(cur) | self.gterm.get(bb, frozenset())
                     out_normal = set(cur)
                     out_unwind = set(cur)
                     d = t['dest']
                     if not d['p'] and d['l'] in g:
-                        out_normal.add(d['l'])
+                        discard(out_normal, d['l'])
+                        out_normal.add((d['l'], ('c', bb)))
                 elif k == 'drop':
-                    self.at_term[bb] = frozenset(cur) | self.at_term.get(bb, frozenset())
+                    self.at_term[bb] = loc(cur) | self.at_term.get(bb, frozenset())
+                    self.gterm[bb] = frozenset(cur) | self.gterm.get(bb, frozenset())
                     pl = t['pl']
                     if not pl['p']:
-                        out_normal.discard(pl['l'])
-                        out_unwind.discard(pl['l'])
-                elif k == 'yield':
-                    self.at_term[bb] = frozenset(cur) | self.at_term.get(bb, frozenset())
+                        discard(out_normal, pl['l'])
+                        discard(out_unwind, pl['l'])
                 else:
-                    self.at_term[bb] = frozenset(cur) | self.at_term.get(bb, frozenset())
+                    self.at_term[bb] = loc(cur) | self.at_term.get(bb, frozenset())
+                    self.gterm[bb] = frozenset(cur) | self.gterm.get(bb, frozenset())
                     if k == 'switch':
                         for l in _moved_locals_in_operand(t['discr']):
-                            out_normal.discard(l)
+                            discard(out_normal, l)
             for lab, tgt in fn.edges(bb, unwind=True):
                 o = out_unwind if lab[0] in ('unwind', 'cdrop') else out_normal
                 new = inn.get(tgt, frozenset()) | frozenset(o)
@@ -203,7 +230,7 @@ class Held:
                     work.append(tgt)
                 elif tgt not in seen_in:
                     work.append(tgt)
-        self.entry = inn
+        self.entry = dict((b_, loc(st_)) for b_, st_ in inn.items())
 
 
 def lock_sites(fn):
